@@ -18,5 +18,5 @@ CONSTANTS
   GenHostSeqs <- GenHostSeqsQuick
 INIT Init
 NEXT Next
-INVARIANTS AlgoCorrect
+INVARIANTS DevPrint AlgoCorrect
 CHECK_DEADLOCK FALSE
